@@ -4,6 +4,7 @@ import (
 	"fmt"
 	"go/ast"
 	"go/token"
+	"go/types"
 	"regexp"
 	"strings"
 
@@ -18,7 +19,7 @@ func init() { register("C03", checkC03) }
 
 var paramBinderRules = []emitRule{
 	fileRewindRule,
-	{Name: "missing key of a required parameter is rejected", Trees: []string{"serverParameter"}, Rx: `if !hasKey \{\s*return errors\.Required\(`, Need: []guardAtom{{"Required", +1}}, Min: 2,
+	{Name: "missing key of a required parameter is rejected", Trees: []string{"serverParameter"}, Rx: `if !hasKey \{\s*return errors\.Required\(`, Need: []guardAtom{{"Required", +1}}, Forbid: []string{"AllowEmptyValue"}, Min: 2,
 		Why: "a required query/header/form parameter that is absent must be answered with an error; an optional one must not"},
 	{Name: "empty value of a required parameter is rejected", Trees: []string{"serverParameter"}, Rx: `validate\.RequiredString\(`, Need: []guardAtom{{"Required", +1}, {"AllowEmptyValue", -1}, {"IsPathParam", -1}}, Min: 1,
 		Why: "an empty value is refused exactly for required parameters that do not allow empty values"},
@@ -344,6 +345,37 @@ func checkParamFlags(c *Ctx, gen *packages.Package) {
 		c.Unk(rule, "generator › IsEnumCI / Converter / Formatter assignments", "", fmt.Sprintf("found %d IsEnumCI and %d converter/formatter assignments, expected at least 4 and 6", nCI, nConv))
 	}
 	checkBodyStrategy(c, rule, gen)
+	// nested items are split by their own collectionFormat (csv when they declare none), never by
+	// the enclosing array's
+	for _, fn := range []string{"codeGenOpBuilder.MakeParameterItem", "codeGenOpBuilder.MakeHeaderItem"} {
+		f := load.FuncDecl(gen, fn)
+		if f == nil {
+			c.Anchor(rule, "generator."+fn, "not found")
+			continue
+		}
+		// the items being built: the first *spec.Items parameter
+		var itemsObj types.Object
+		for _, fl := range f.Type.Params.List {
+			if itemsObj == nil && goan.ExprString(fl.Type) == "*spec.Items" && len(fl.Names) > 0 {
+				itemsObj = info.Defs[fl.Names[0]]
+			}
+		}
+		n, bad := 0, ""
+		ast.Inspect(f.Body, func(nd ast.Node) bool {
+			as, ok := nd.(*ast.AssignStmt)
+			if !ok || len(as.Lhs) != 1 || len(as.Rhs) != 1 || goan.LastSel(as.Lhs[0]) != "CollectionFormat" {
+				return true
+			}
+			n++
+			se, isSel := ast.Unparen(as.Rhs[0]).(*ast.SelectorExpr)
+			if !isSel || se.Sel.Name != "CollectionFormat" || !identIs(info, se.X, itemsObj) {
+				bad = goan.ExprString(as.Rhs[0])
+			}
+			return true
+		})
+		c.Check(n == 1 && bad == "", rule, "generator."+fn+" › CollectionFormat is the items' own", c.posOf(gen, f.Pos()), "one store, from the items being built",
+			fmt.Sprintf("the collectionFormat of nested items is taken from %q (%d stores): an inner array that declares none is no longer split as csv, so a valid nested value is rejected or mis-split", bad, n))
+	}
 }
 
 // checkBodyStrategy: setBodyParamValidation stores each local flag in the field of the same
